@@ -664,7 +664,7 @@ func C05(p *ir.Program, r *report.R) {
 		"(paths) PreRunBlock and CheckBlock run the same processBlock on a state copy, the header fields PreRunBlock fills are exactly those CheckBlock compares, and the preRun flag controls nothing but the signature pre-check; " +
 		"(cache) the mempool cache hands out a transaction only after its basic check succeeded, entries are inserted unchecked, and the pre-check uses the cache only under the block transaction's own hash; " +
 		"(storage mode) wrappedTrie.Hash returns the hash of the heap-ordered update multiset in both modes and every update is pushed. " +
-		"Round 6: every worker of the signature pre-check has its own start index and result slot and is joined; at least one worker on any machine; container/heap types are fed only through container/heap. NOT decided: that callee effects keyed by an address really commute (trie set-semantics is trusted), arithmetic of the stride partition, determinism of the cgo library and of the third-party WASM engine, floating point (none found), data races on per-transaction caches."
+		"Round 6: every worker of the signature pre-check has its own start index and result slot and is joined; at least one worker on any machine; container/heap types are fed only through container/heap. Round 7: Finalise recomputes the storage root of every live dirty account, not only of those with pending storage writes. NOT decided: that callee effects keyed by an address really commute (trie set-semantics is trusted), arithmetic of the stride partition, determinism of the cgo library and of the third-party WASM engine, floating point (none found), data races on per-transaction caches."
 	r.Trusted = []string{"Merkle-Patricia trie root depends only on the key/value set", "container/heap, sort", "libxcrypto (cgo) and tc-wasm engine are deterministic", "reviewed tables c05MapSites, c05GoSites, c05Consumers"}
 
 	entries := []*ssa.Function{
